@@ -28,7 +28,58 @@ func init() {
 	})
 }
 
+// extractionCalls (C20.R7, C20.R8): what the extraction may create. Reached from UnzipToFolder (through functions of the
+// package): no link of any kind is created - a link whose target comes from the archive redirects every later entry
+// written "below" it, and a lexical containment test of the target says nothing about where a chain of links resolves;
+// and directories are created with their missing parents (os.MkdirAll) - the archives written by ZipFolder carry file
+// entries only, so an intermediate folder exists in the archive as a name prefix and nowhere else.
+func (c *Ctx) extractionCalls() {
+	unzip := c.P.Func("files", "UnzipToFolder")
+	if unzip == nil || len(unzip.Blocks) == 0 {
+		c.Decide("C20.R7", nil, "extraction creates regular files and directories only", nil, false, "files.UnzipToFolder not found")
+		return
+	}
+	seen := map[*ssa.Function]bool{}
+	links, mk, mkAll := 0, 0, 0
+	var visit func(fn *ssa.Function, d int)
+	visit = func(fn *ssa.Function, d int) {
+		if fn == nil || seen[fn] || d > 4 || len(fn.Blocks) == 0 {
+			return
+		}
+		seen[fn] = true
+		for _, call := range ir.Calls(fn) {
+			in, _ := call.(ssa.Instruction)
+			switch ir.CalleeFullName(call) {
+			case "os.Symlink", "os.Link", "syscall.Symlink", "syscall.Link", "syscall.Mkfifo", "syscall.Mknod":
+				links++
+				c.Decide("C20.R7", fn, "extraction creates regular files and directories only", in, false,
+					"the extraction creates a link (or device) from archive data: entries that follow are written through it, a chain of relative links that each look harmless resolves outside of the destination directory")
+			case "os.Mkdir":
+				mk++
+				c.Decide("C20.R8", fn, "directories are created with their parents", in, false,
+					"the extraction creates a directory with os.Mkdir: a folder whose parent holds no file of its own exists in the archive only as a name prefix, os.Mkdir fails for it (ENOENT) and every file below is lost in the round trip")
+			case "os.MkdirAll":
+				mkAll++
+			}
+			if cal := ir.StaticCallee(call); cal != nil && cal.Pkg == unzip.Pkg {
+				visit(cal, d+1)
+			}
+		}
+		for _, an := range fn.AnonFuncs {
+			visit(an, d+1)
+		}
+	}
+	visit(unzip, 0)
+	if links == 0 {
+		c.Decide("C20.R7", unzip, "extraction creates regular files and directories only", nil, true, "")
+	}
+	if mk == 0 {
+		c.Decide("C20.R8", unzip, "directories are created with their parents", nil, mkAll > 0, "the extraction never creates a directory (no os.MkdirAll reached from UnzipToFolder)")
+	}
+}
+
 func runC20(c *Ctx) {
+	c.extractionCalls()
 	fns := c.P.FuncsOf("files")
 	if len(fns) == 0 {
 		c.Fatalf("package files not loaded")
